@@ -76,3 +76,4 @@ func vfhC08TWKBHeaders() {
 	}
 	vfReach("end")
 }
+
